@@ -85,8 +85,10 @@ IsSigRef(rk) == rk \in {"ty.global", "ty.sig", "ty.pattr"}     \* ty.pattr: the 
 \* All names used by the patterns, in natural order; bytes given for the cross-check
 \* against NatSort!RefLess (ASSUME NamesSorted in Translate.tla).
 \* "$t", "-t", ".t" sort below every digit; "t$x" extends "t" with the one unquoted character below ')';
-\* "z z" must be written quoted (%"z z", $"z z")
-NameOrder == <<"$t", "-t", ".t", "0", "1", "2", "7", "10", "a", "a2", "a9", "a10", "a18446744073709551616", "a018446744073709551616", "a18446744073709551617", "b", "bb", "c", "entry", "f", "g", "h", "m", "p", "r", "t", "t$x", "x", "y", "z z">>
+\* "z z" must be written quoted (%"z z", $"z z"); "a\\00" is the name a followed by a NUL byte, spelled with the escape of
+\* the assembly (a backslash and two hex digits: the model name IS the spelling); LLVM takes any byte in metadata names
+\* only: the end of a name is not a byte, "a" < "a\\00" < "a2"
+NameOrder == <<"$t", "-t", ".t", "0", "1", "2", "7", "10", "a", "a\\00", "a2", "a9", "a10", "a18446744073709551616", "a018446744073709551616", "a18446744073709551617", "b", "bb", "c", "entry", "f", "g", "h", "m", "p", "r", "t", "t$x", "x", "y", "z z">>
 \* digit runs that do not fit 64 bits (2^64, 2^64 with a leading zero, 2^64 + 1): compared by value like any other
 W19 == <<49, 56, 52, 52, 54, 55, 52, 52, 48, 55, 51, 55, 48, 57, 53, 53, 49, 54, 49>>     \* "1844674407370955161"
 NameBytes == [i \in 1..Len(NameOrder) |->
@@ -97,6 +99,7 @@ NameBytes == [i \in 1..Len(NameOrder) |->
     [] NameOrder[i] = "t" -> <<116>> [] NameOrder[i] = "t$x" -> <<116, 36, 120>> [] NameOrder[i] = "z z" -> <<122, 32, 122>>
     [] NameOrder[i] = "0" -> <<48>> [] NameOrder[i] = "1" -> <<49>> [] NameOrder[i] = "2" -> <<50>>
     [] NameOrder[i] = "7" -> <<55>> [] NameOrder[i] = "10" -> <<49, 48>>
+    [] NameOrder[i] = "a\\00" -> <<97, 0>>
     [] NameOrder[i] = "a" -> <<97>> [] NameOrder[i] = "a2" -> <<97, 50>> [] NameOrder[i] = "a9" -> <<97, 57>>
     [] NameOrder[i] = "a10" -> <<97, 49, 48>> [] NameOrder[i] = "b" -> <<98>> [] NameOrder[i] = "bb" -> <<98, 98>>
     [] NameOrder[i] = "c" -> <<99>> [] NameOrder[i] = "entry" -> <<101, 110, 116, 114, 121>>
@@ -264,7 +267,16 @@ Patterns == <<
   \* 36: module-level strings: target definitions first (the last of a kind wins), module asm lines among the other entities
   \*     (kept in textual order), strings with a raw line break, an escaped quote and a semicolon
   << SrcFile("s"), Triple("ml"), DataLayout("s"), SrcFile("esc"), ModAsm("s"), Global("g", <<>>), ModAsm("ml"), Decl("f", <<>>), ModAsm("esc"),
-     GlobalStr("h"), MdStr("0"), NamedMd("m", <<Ref("m.named", "0")>>) >>
+     GlobalStr("h"), MdStr("0"), NamedMd("m", <<Ref("m.named", "0")>>) >>,
+  \* 38: an alias CHAIN of depth 3 (the aliasee of an alias is an alias), outer alias first: forward references; whether
+  \*     the text is accepted must not depend on which alias the translator visits first
+  << Alias("c", <<Ref("g.aliasee", "a")>>), Alias("a", <<Ref("g.aliasee", "b")>>), Alias("b", <<Ref("g.aliasee", "x")>>), Global("x", <<>>) >>,
+  \* 39: alias chains through constant expressions (aux of g.aliasee: "gep" = getelementptr, "bitcast", "asc" = addrspacecast
+  \*     of the aliasee), inner alias first, ending in a function; an alias of the chain used by an initialiser
+  << Def("f", <<>>, << Loc("entry", "block", <<>>) >>), Alias("h", <<Ref("g.aliasee", "f")>>), Alias("b", <<RefX("g.aliasee", "h", "bitcast")>>),
+     Alias("a", <<RefX("g.aliasee", "b", "gep")>>), Alias("g", <<RefX("g.aliasee", "a", "asc")>>), Global("x", <<Ref("g.init", "b")>>) >>,
+  \* 40: named metadata whose names differ by a trailing NUL byte only, next to a digit continuation
+  << NamedMd("a2", <<Ref("m.named", "0")>>), NamedMd("a\\00", <<Ref("m.named", "0")>>), NamedMd("a", <<>>), Md("0", <<>>) >>
 >>
 
 \* Abstract strings: "s" one word; "ml" two lines separated by a RAW line break (its bytes are the line ending of the
@@ -299,6 +311,9 @@ PosLess(p, q) == p[1] < q[1] \/ (p[1] = q[1] /\ p[2] < q[2])
 \* LLVM cannot arbitrate them
 AliasPatterns == <<
   << TStruct("b", <<>>), TAlias("a", "b"), Global("g", <<Ref("ty.global", "a")>>) >>,
-  << TAlias("a", "b"), TAlias("b", "a") >>
+  << TAlias("a", "b"), TAlias("b", "a") >>,
+  \* an alias whose identifier sorts BEFORE and one whose identifier sorts AFTER the aliased type, an unrelated type in
+  \* between: whatever order the definitions are listed in, it is one order for every permutation and every run
+  << TAlias("a", "x"), TStruct("m", <<>>), TStruct("x", <<Ref("ty.field", "m")>>), TAlias("y", "x"), Global("g", <<Ref("ty.global", "a")>>) >>
 >>
 =============================================================================
